@@ -378,7 +378,7 @@ func init() {
 		Assumptions: []string{"a fresh loader.Load of the same YAML with replicas: n is the reference", "quiescence = expected number of live simulated commands reached (bounded 5 s), used to pace the history only"},
 		Gen: func(seed int64, tier string) []fw.Case {
 			var cs []fw.Case
-			for i := 0; i < tierN(tier, 500, 6000); i++ {
+			for i := 0; i < tierN(tier, 5000, 60000); i++ {
 				s := fw.SubSeed(seed, i)
 				sp := genScSpec(fw.Rand(s), i)
 				sp.ViaClient = false
